@@ -17,6 +17,8 @@ def run_all(patch):
         tv = os.path.join(tmp, "verif")
         os.makedirs(tv)
         shutil.copy(os.path.join(VERIF, "known_findings.json"), tv)
+        os.makedirs(os.path.join(tv, "checker"), exist_ok=True)
+        shutil.copy(os.path.join(VERIF, "checker", "known_funcs.txt"), os.path.join(tv, "checker"))
         env = dict(os.environ)
         r = subprocess.run([os.path.join(VERIF, "bin/verifcheck"), "-repo", dst, "-verif", tv, "-prop", "all"], capture_output=True, text=True, env=env)
         out = r.stdout + r.stderr
